@@ -719,21 +719,24 @@ PROPS["C35"] = dict(
 
 PROPS["C39"] = dict(
     title="Account deposit rules are enforced exactly",
-    functions=["radix_engine::blueprints::account::AccountBlueprintBottlenoseExtension::try_deposit_or_refund",
-               "AccountBlueprint::{try_deposit_or_refund, try_deposit_or_abort, is_deposit_allowed, "
-               "validate_badge_is_authorized_depositor, validate_badge_is_present}"],
-    bounds="single-bucket guarded deposits: every combination of bucket resource (XRD / another fungible / a non-fungible), "
-           "resource preference (none / allowed / disallowed), default rule (accept / reject / allow existing), vault "
-           "present or not, named badge absent or present of either kind (3 ids), on the authorized-depositor list or not "
-           "(an unrelated badge is always listed), proven or not: 2592 symbolic situations, decided per path by the solver",
-    outside="the batch variants (iterator chains over the bucket vector), deposit / get_vault themselves (vault creation and "
-            "put are exercised natively only), withdrawals, the setters, how the badge proof is evaluated (C08), 'only that "
-            "account's vaults change' (kernel-level)",
+    functions=["radix_engine::blueprints::account::AccountBlueprintBottlenoseExtension::{try_deposit_or_refund, "
+               "try_deposit_batch_or_refund}",
+               "AccountBlueprint::{try_deposit_or_refund, try_deposit_batch_or_refund, try_deposit_or_abort, "
+               "try_deposit_batch_or_abort, deposit_batch, is_deposit_allowed, validate_badge_is_authorized_depositor, "
+               "validate_badge_is_present}"],
+    bounds="single bucket: every combination of bucket resource (XRD / another fungible / a non-fungible), resource "
+           "preference (none / allowed / disallowed), default rule (accept / reject / allow existing), vault present or "
+           "not, named badge absent or present of either kind (3 ids), on the authorized-depositor list or not (an "
+           "unrelated badge is always listed), proven or not. Batches: 1..2 buckets (3 in the thorough tier) of any of the "
+           "3 resources with a preference and a vault flag PER resource and the same rule / badge situations",
+    outside="batches of more than 3 buckets; deposit / get_vault themselves (vault creation and put are exercised natively "
+            "only), withdrawals, the setters, how the badge proof is evaluated (C08), 'only that account's vaults change' "
+            "(kernel-level), rejected-deposit events",
     assumptions=["get_resource_preference / get_default_deposit_rule / does_vault_exist answer the account's symbolic state; "
                  "the authorized-depositor entry read answers by the key it was opened with (abstract injective encoding of "
-                 "the badge); AccountBlueprint::deposit, Runtime::assert_access_rule and Runtime::emit_event are recorded "
-                 "effects; natively all of these are the real functions over the MockApi key-value store, the state being "
-                 "built with the real setters"],
+                 "the badge) in the authorized-depositor collection; AccountBlueprint::deposit, Runtime::assert_access_rule "
+                 "and Runtime::emit_event are recorded effects; natively all of these are the real functions over the "
+                 "MockApi key-value store, the state being built with the real setters"],
     trusted_base=MIR_TB,
     mir=True,
 )
